@@ -119,13 +119,14 @@ def check_stmt(ctx, spec):
         return
     src = payload
     expected = wellformed.schema_of(stmt)
+    unnamed = [t for t in crash if t == 'unnamed']  # the construction-time proxy crash is not a schema matter
     try:
         fields = [(f.name, catalog.kind_name(f.kind)) for f in src.schema]
     except RecursionError as exc:
-        ctx.fail(spec, 'schema', 'raises-RecursionError', f'.schema of {src!r}: {str(exc)[:100]}', crash)
+        ctx.fail(spec, 'schema', 'raises-RecursionError', f'.schema of {src!r}: {str(exc)[:100]}', unnamed)
         return
     except Exception as exc:  # pylint: disable=broad-except
-        ctx.fail(spec, 'schema', 'raises-' + type(exc).__name__, f'.schema of {src!r}: {exc}', crash)
+        ctx.fail(spec, 'schema', 'raises-' + type(exc).__name__, f'.schema of {src!r}: {exc}', unnamed)
         return
     dup = ['dup-names'] if len({n for n, _ in expected if n is not None}) < sum(1 for n, _ in expected if n is not None) else []
     if len(fields) != len(expected):
